@@ -64,6 +64,8 @@ def candidates(case):
             for k in list((op.get('attrs') or {})):
                 if k == 'channels':
                     continue
+                if op['t'] == 'origin' and k in ('file_set_number', 'creation_time'):
+                    continue      # pinned on purpose: without them two writes of one spec differ (random / now())
                 c = copy.deepcopy(case)
                 del c['lfs'][i]['ops'][j]['attrs'][k]
                 yield c
